@@ -164,6 +164,14 @@ def points(tier: str) -> List[Dict[str, Any]]:
                 pts.append({"delay": delay, "forced": None, "jitter": 0.0, "types": types, "events": [], "pre": pre})
                 for e in ((20_000, ("ptr", Y, 4500)), (3_375_000 + 1000, ("ptr", X, 4500)), (40_000, ("ptr", X, 0))):
                     pts.append({"delay": delay, "forced": None, "jitter": 0.0, "types": types, "events": [e], "pre": pre})
+    # ... cached so long before the browser starts that the refresh falls due while the start-up queries are still being sent, or
+    # less than a delay after the last of them (the start-up series ends 14 s after the first query)
+    for delay in (10_000, 60_000):
+        for due_after_start in (-20_000, 2_000, 13_000, 15_000, 18_000, 30_000, 70_000):
+            for forced in (None, "QU"):
+                age = 3_375_000 - due_after_start
+                pts.append({"delay": delay, "forced": forced, "jitter": 0.0, "types": "a", "events": [],
+                            "pre": [(age, ("ptr", X, 4500))]})
     return pts
 
 
@@ -346,6 +354,12 @@ def run_point(p: Dict[str, Any], verbose: bool = False) -> Tuple[Optional[Dict[s
             for k in range(3):
                 lo, hi = window(iv, k)
                 if lo <= startup_end + delay:
+                    if iv["created"] < t_start:
+                        # cached before the browser existed and (nearly) due when it starts: the start-up queries stand in for
+                        # the 75 % query at an instant of their own, and the library counts its 10 % steps from the query it
+                        # really sent - "further 10 percent steps" has no fixed instants here; liveness and the rate limit
+                        # below still apply
+                        break
                     continue  # start-up queries already ask for the type
                 if hi + delay > min(iv["end"], expiry) or hi + delay > horizon:
                     continue  # refreshed/withdrawn before the window closed, or the window does not precede expiry
@@ -393,6 +407,8 @@ def run_point(p: Dict[str, Any], verbose: bool = False) -> Tuple[Optional[Dict[s
             for iv in intervals:
                 if not (iv["created"] <= t <= iv["end"] + 1):
                     continue
+                if iv["created"] < t_start and window(iv, 0)[0] <= startup_end + delay:
+                    ok = True  # (see (c): a record that was due when the browser started has no fixed step instants)
                 for k in range(3):
                     lo, hi = window(iv, k)
                     if lo - delay - 1 <= t <= hi + delay + 1:
